@@ -43,12 +43,11 @@ ArchChecked(o, p, k) == p[o] # None /\ (~Dev_FalsyParent \/ DOMAIN k[p[o]] # {})
 ArchOk(o, p, k) == ArchChecked(o, p, k) => Obj[o].arches \subseteq Obj[p[o]].arches
 ValidObj(o, p, k) == Obj[o].arches # {} /\ UidOk(o, p) /\ ArchOk(o, p, k)
 
-RECURSIVE Reach(_, _)
-Reach(c, n) == IF n = 0 THEN {} ELSE Range(kids[c]) \cup UNION {Reach(d, n - 1) : d \in Range(kids[c])}
+IsFiled(q) == \E d \in Cont : q \in Range(kids[d])
 AddOk(c, o) ==
   LET p1 == IF c # ROOT THEN [par EXCEPT ![o] = c] ELSE par      \* the parent link the add would create
   IN  /\ ValidObj(o, p1, kids)
-      /\ (Dev_UidCollision \/ \A q \in Reach(ROOT, 4) : Obj[q].uid = Obj[o].uid => q = o)   \* UIDs stay unique in the forest
+      /\ (Dev_UidCollision \/ \A q \in Objs : (Obj[q].uid = Obj[o].uid /\ q # o) => ~IsFiled(q))   \* UIDs stay unique in the forest
       /\ (c # ROOT => o \notin Anc(c, p1, N))                     \* not its own ancestor
       /\ (Obj[o].id \in DOMAIN kids[c] => kids[c][Obj[o].id] = o) \* id not taken by another variant
 Add(c, o) ==
@@ -124,7 +123,8 @@ Findable     == \A o \in InForest :
                    /\ (par[o] # None => LookupImpl(par[o], <<Obj[o].id>>) = o)
 ArchesUsed   == UNION {Obj[o].arches : o \in Objs}
 TypesUsed    == {Obj[o].type : o \in Objs}
-GetVSound    == \A arch \in ArchesUsed \cup {None, "src"}, types \in SUBSET TypesUsed, rec \in BOOLEAN, c \in InForest \cup {ROOT} :
+TypeSets     == {{}, {"variant"}, {"addon", "optional"}, {"layered-product", "addon"}, TypesUsed}
+GetVSound    == \A arch \in ArchesUsed \cup {None, "src"}, types \in TypeSets, rec \in BOOLEAN, c \in InForest \cup {ROOT} :
                   /\ \A d \in GetVImpl(c, arch, types, rec, 4) :
                         /\ (arch \in ArchesUsed => arch \in Obj[d].arches)
                         /\ (types # {} => Obj[d].type \in types)
